@@ -535,6 +535,7 @@ type Contract struct {
 	Pure       bool
 	Trusted    bool // contract is assumed at call sites, body not verified (listed in the evidence)
 	GhostParam []SVar
+	GhostVars  []SVar // mutable ghost variables (initialised to the zero value of their type)
 	Events     []*EventClause
 	Decreases  *SExpr
 	Props      []string // properties this contract serves
@@ -630,7 +631,7 @@ func specLines(f *ast.File, fset *token.FileSet) []struct {
 	return out
 }
 
-var clauseKeywords = []string{"requires-captured", "on-entry", "use", "requires", "ensures", "modifies", "loop", "inline", "pure", "trusted", "ghost-param", "on-call", "on-send", "at", "decreases",
+var clauseKeywords = []string{"ghost-var", "requires-captured", "on-entry", "use", "requires", "ensures", "modifies", "loop", "inline", "pure", "trusted", "ghost-param", "on-call", "on-send", "at", "decreases",
 	"props", "let", "assert", "guards", "invariant", "ghost", "field", "holds", "unit", "recv", "call"}
 
 func stripComment(s string) string {
@@ -857,6 +858,13 @@ func parseContractFile(pkg string, path string, f *ast.File, fset *token.FileSet
 				cur.Props = append(cur.Props, ps...)
 			case curLemma != nil:
 				curLemma.Props = append(curLemma.Props, ps...)
+			}
+		case "ghost-var":
+			if cur != nil {
+				fs := strings.Fields(rest)
+				if len(fs) == 2 {
+					cur.GhostVars = append(cur.GhostVars, SVar{fs[0], fs[1]})
+				}
 			}
 		case "ghost-param":
 			if cur != nil {
